@@ -2,10 +2,12 @@ module verifharness
 
 go 1.21
 
-require github.com/cloudwego/gopkg v0.0.0
+require (
+	github.com/bytedance/gopkg v0.1.1
+	github.com/cloudwego/gopkg v0.0.0
+)
 
 require (
-	github.com/bytedance/gopkg v0.1.1 // indirect
 	golang.org/x/net v0.24.0 // indirect
 	golang.org/x/text v0.14.0 // indirect
 )
